@@ -671,7 +671,7 @@ func main() {
 		r.Notes = append(r.Notes, "scenarios that took more than 10 s: "+strings.Join(slow, ", "))
 	}
 	var want []string
-	for _, sg := range []string{"findservers-no-endpoints", "createsession-nonrsa-certificate", "activatesession-nonrsa-certificate",
+	for _, sg := range []string{"findservers-no-endpoints", "createsession-nonrsa-certificate",
 		"createsubscription-nonpositive-interval", "createsubscription-nil-session-tick", "deletesubscriptions-nil-session",
 		"createmonitoreditems-nil-session", "setmonitoringmode-nil-session",
 		"deletemonitoreditems-nil-session", "browse-datatype-type-assertion"} {
